@@ -20,6 +20,8 @@
 #include <optional>
 #include <cstring>
 #include <vector>
+#include <filesystem>
+#include <algorithm>
 
 namespace sbepp::sbeppc
 {
@@ -30,11 +32,8 @@ class schema_parser
 public:
     schema_parser(
         const std::string& path, ireporter& reporter, ifs_provider& fs_provider)
-        : reporter{&reporter}, fs_provider{&fs_provider}
+        : schema_parser{path, reporter, fs_provider, {}}
     {
-        const auto file_data = this->fs_provider->read_file(path);
-        locations = location_manager{path, file_data};
-        parse_xml(file_data);
     }
 
     void parse_schema()
@@ -56,8 +55,27 @@ public:
     }
 
 private:
+    // `include_chain` holds files which are being parsed at the moment, from the
+    // root schema down to the current file
+    schema_parser(
+        const std::string& path,
+        ireporter& reporter,
+        ifs_provider& fs_provider,
+        std::vector<std::filesystem::path> include_chain)
+        : reporter{&reporter},
+          fs_provider{&fs_provider},
+          include_chain{std::move(include_chain)}
+    {
+        this->include_chain.push_back(
+            std::filesystem::weakly_canonical(std::filesystem::absolute(path)));
+        const auto file_data = this->fs_provider->read_file(path);
+        locations = location_manager{path, file_data};
+        parse_xml(file_data);
+    }
+
     ireporter* reporter;
     ifs_provider* fs_provider;
+    std::vector<std::filesystem::path> include_chain;
     location_manager locations;
     pugi::xml_document xml_doc;
     sbe::message_schema message_schema;
@@ -135,7 +153,21 @@ private:
     void parse_include(const pugi::xml_node root)
     {
         const auto path = get_required_non_empty_string(root, "href");
-        auto parser = schema_parser{path, *reporter, *fs_provider};
+        const auto canonical_path = std::filesystem::weakly_canonical(
+            std::filesystem::absolute(path));
+        if(std::find(
+               std::begin(include_chain),
+               std::end(include_chain),
+               canonical_path)
+           != std::end(include_chain))
+        {
+            throw_error(
+                "{}: cyclic include of `{}`",
+                locations.find(root.offset_debug()),
+                path);
+        }
+        auto parser =
+            schema_parser{path, *reporter, *fs_provider, include_chain};
         parser.parse_schema_content();
 
         const auto& schema = parser.get_message_schema();
